@@ -57,6 +57,8 @@ type callM struct {
 	rrIndex  int
 	rrEpoch  int
 	rrN      int
+	cKey     string
+	cSeq     int
 	returned bool
 	placed   bool
 	ex       *expect
@@ -108,8 +110,16 @@ type Model struct {
 	rrInvoked int
 	maxPool   int
 
-	viol     []simkit.Violation
-	track    bool // concurrent burst: keep the structural state, give no verdicts
+	viol  []simkit.Violation
+	track bool // concurrent burst: keep the structural state, give no verdicts
+	// Concurrent-burst affinity oracle (stable facts only): once a BIND completion
+	// for key K has RETURNED and no UNBIND for K was ever started, every BOUND call
+	// for K placed while all channels are READY (no balancer callback overlapping)
+	// goes to one and the same channel.
+	cBound   map[string]bool
+	cDropped map[string]bool
+	cHome    map[string]int
+	coreSeq  int
 	aggKnown bool
 	pd       *donePending
 	// Coverage probes.
@@ -207,6 +217,53 @@ func (m *Model) v(prop, rule, facts, msg string, op int) {
 
 //go:norace
 func (m *Model) probe(n string) { m.Probes[n]++ }
+
+func (m *Model) vAlways(prop, rule, facts, msg string, op int) {
+	t := m.track
+	m.track = false
+	m.v(prop, rule, facts, msg, op)
+	m.track = t
+}
+
+func (m *Model) allReady() bool {
+	if len(m.chans) == 0 {
+		return false
+	}
+	for _, ch := range m.chans {
+		if ch.gone || ch.state != connectivity.Ready || ch.refreshing {
+			return false
+		}
+	}
+	return true
+}
+
+// trackKeyedInvoke: bookkeeping of the concurrent-burst affinity oracle at the
+// invocation of a pick.
+func (m *Model) trackKeyedInvoke(c *Call, cm *callM) {
+	if m.cBound == nil {
+		m.cBound, m.cDropped, m.cHome = map[string]bool{}, map[string]bool{}, map[string]int{}
+	}
+	if c.NoGCP || c.Stream || m.cfg.ambiguous[c.MethodName] || c.Age != 0 {
+		return
+	}
+	mm, ok := m.cfg.methods[c.MethodName]
+	if !ok || (mm.cmd != cmdBound && mm.cmd != cmdUnbind) {
+		return
+	}
+	keys, err := modelKeys(mm.locator, c.ReqKeys, c.NilMsg)
+	if err != nil || len(keys) == 0 || keys[0] == "" {
+		return
+	}
+	k := keys[0]
+	if mm.cmd == cmdUnbind {
+		m.cDropped[k] = true
+		return
+	}
+	if m.cBound[k] && !m.cDropped[k] && m.allReady() {
+		cm.cKey, cm.cSeq = k, m.coreSeq
+		m.probe("concurrent_bound_pick_judged")
+	}
+}
 
 //go:norace
 func (m *Model) poolSize() int {
@@ -349,6 +406,7 @@ func (m *Model) On(ev Event) {
 
 //go:norace
 func (m *Model) opStart(ev Event) {
+	m.coreSeq++
 	o := &coreOp{op: ev.Op, kind: ev.Note, conn: ev.Conn, state: ev.State, addrs: ev.Addrs,
 		aggBefore: m.aggregate(), aggKnown: m.aggKnown, readyBef: m.readySet(), upd: map[int]bool{}, conn2: map[int]bool{}, swapOld: -1, swapCh: -1}
 	m.op = o
@@ -589,12 +647,20 @@ func (m *Model) opEnd(ev Event) {
 		}
 	}
 	if o.kind == "reserr" || (o.kind == "conn" && (!o.known || (o.kindConn != rolePool && o.swapOld < 0))) {
-		if o.pubs > 0 || len(o.newSC) > 0 || len(o.removed) > 0 || len(o.upd) > 0 || len(o.conn2) > 0 {
+		// Inert callbacks (resolver error; report for a replacement that is not
+		// READY yet, for a removed or unknown connection) must not change the pool.
+		// Re-publishing the unchanged state or asking a connection to connect is
+		// harmless and not forbidden by the statements; creating or removing
+		// connections is.
+		if len(o.newSC) > 0 || len(o.removed) > 0 {
 			prop, rule := "C04", "inert-report-had-effect"
 			if o.kind == "reserr" {
 				prop, rule = "C20", "resolver-error-had-effect"
 			}
-			m.v(prop, rule, "", fmt.Sprintf("%s changed the pool: pubs=%d new=%d removed=%d", o.kind, o.pubs, len(o.newSC), len(o.removed)), ev.Op)
+			m.v(prop, rule, "", fmt.Sprintf("%s changed the pool: new=%d removed=%d", o.kind, len(o.newSC), len(o.removed)), ev.Op)
+		}
+		if o.kind == "reserr" && (len(o.upd) > 0) {
+			m.v("C20", "resolver-error-had-effect", "addrs", "a resolver error pushed addresses to connections", ev.Op)
 		}
 	}
 	// C04: published state and publication obligations.
@@ -664,6 +730,7 @@ func (m *Model) pickInvoke(ev Event) {
 		m.rrInvoked++
 	}
 	if m.track {
+		m.trackKeyedInvoke(c, cm)
 		return
 	}
 	// The expectation is computed against the state the pick finds, before its
@@ -849,6 +916,13 @@ func (m *Model) pickReturn(ev Event) {
 			cm.ch = placedCh
 			cm.placed = true
 			m.chans[placedCh].inflight++
+			if m.track && cm.cKey != "" && cm.cSeq == m.coreSeq && m.allReady() {
+				if h, ok := m.cHome[cm.cKey]; ok && h != placedCh {
+					m.vAlways("C01", "bound-key-moved-without-unbind", "concurrent", fmt.Sprintf("call %d %s for key %q was placed on channel %d, an earlier call for the same key (after its BIND had completed, no UNBIND ever started, all channels READY) on channel %d", c.ID, c.MethodName, cm.cKey, placedCh, h), ev.Op)
+				} else {
+					m.cHome[cm.cKey] = placedCh
+				}
+			}
 		}
 		return
 	}
@@ -1114,6 +1188,9 @@ func (m *Model) doneReturn(ev Event) {
 				}
 				if err == nil {
 					for _, k := range keys {
+						if m.track && m.cBound != nil {
+							m.cBound[k] = true
+						}
 						if _, ok := m.keys[k]; !ok {
 							m.keys[k] = cm.ch
 							ch.keys++
